@@ -1,12 +1,15 @@
-(* C10 proofs: the strtol / sto / ato families (all thin wrappers over to_integer) agree with the
-   C contract outside four recorded defect regions: base 0, a 0x prefix with base 16, values
-   outside the return type (no saturation), and a minus sign for the unsigned functions. *)
+(* C10 proofs: atoi / atol / atoll (thin wrappers over to_integer<Int> with the default options,
+   base 10) return the value of strtol(s, NULL, 10) whenever it is representable in the result
+   type (C17 7.22.1.2; unrepresentable = undefined behaviour in C).  [ti_pair_m] is to_integer
+   with the default options seen as a (value, end) pair; it agrees with the strtol contract
+   outside [strto_region] (what strtol & co. were before the strto_integer fix commits; the
+   functions themselves are proved against the full contract in ProofsStrtoC.v). *)
 From Tetl Require Import Lib.Base C10.Model C10.Spec C10.Arith C10.Digits C10.ProofsParse.
 From Coq Require Import ZifyBool.
 Local Open Scope Z_scope.
 Ltac Zify.zify_post_hook ::= Z.to_euclidean_division_equations.
 
-(* the inputs on which the code is known to deviate from C (known_findings.json, entries KF-C10-strto-... and KF-C10-strtou-minus) *)
+(* the inputs on which plain to_integer deviates from the strtol contract *)
 Definition strto_region (t : ity) (b : Z) (s : list Z) : bool :=
   let '(neg, s2) := split_sign (drop_space s) in
   (b =? 0) || ((b =? 16) && has_0x s2)
@@ -34,10 +37,10 @@ Qed.
 Lemma match_nil_id {A} (l : list A) : match l with [] => l | _ :: _ => l end = l.
 Proof. destruct l; reflexivity. Qed.
 
-Theorem strto_correct t s b : 8 <= bits t -> 2 <= b <= 36 -> strto_region t b s = false ->
-  strto_m t s b = Ok (strto_spec t b s).
+Theorem ti_pair_correct t s b : 8 <= bits t -> 2 <= b <= 36 -> strto_region t b s = false ->
+  ti_pair_m t s b = Ok (strto_spec t b s).
 Proof.
-  intros Hbits Hb Hreg. unfold strto_m.
+  intros Hbits Hb Hreg. unfold ti_pair_m.
   rewrite (cast_id t b Hbits) by (apply in_ty_small; [assumption|lia]).
   rewrite (to_integer_spec t true true s b Hbits Hb). cbn [rbind].
   unfold strto_region in Hreg. unfold strto_spec, gparse.
@@ -103,43 +106,11 @@ Proof.
           first [reflexivity | do 2 f_equal; lia].
 Qed.
 
-(** * stoi stol stoll stoul stoull *)
-(* defect region of the sto family: std throws on overflow, so only three regions remain *)
-Definition sto_region (t : ity) (b : Z) (s : list Z) : bool :=
-  let '(neg, s2) := split_sign (drop_space s) in
-  (b =? 0) || ((b =? 16) && has_0x s2)
-  || (let '(_, _, ds, _) := subject b s in
-      negb (sgn t) && neg && match ds with [] => false | _ => true end).
-
-Theorem sto_correct t s b r : 8 <= bits t -> 2 <= b <= 36 -> sto_region t b s = false ->
-  sto_spec t b s = Some r -> strto_m t s b = Ok r.
-Proof.
-  intros Hbits Hb Hreg Hsome.
-  assert (H : strto_region t b s = false /\ strto_spec t b s = r).
-  { unfold sto_region in Hreg. unfold strto_region, strto_spec. unfold sto_spec in Hsome.
-    destruct (split_sign (drop_space s)) as [neg s2] eqn:Esp.
-    apply Bool.orb_false_elim in Hreg. destruct Hreg as [Hreg Hneg].
-    rewrite Hreg. cbn [orb].
-    apply Bool.orb_false_elim in Hreg. destruct Hreg as [_ Hx].
-    rewrite (subject_plain b s neg s2 ltac:(lia) Esp Hx) in *.
-    destruct (take_digits b s2) as [|d ds] eqn:Ed; [discriminate|].
-    pose proof (imin_imax t Hbits) as Hi.
-    cbv zeta in *. destruct (sgn t) eqn:S.
-    - destruct (in_ty t (if neg then - eval b (d :: ds) else eval b (d :: ds))) eqn:Ein; [|discriminate].
-      inversion Hsome; subst r. split; [reflexivity|]. apply in_ty_iff in Ein.
-      set (v := if neg then - eval b (d :: ds) else eval b (d :: ds)) in *.
-      replace (v <? imin t) with false by lia. replace (v >? imax t) with false by lia. reflexivity.
-    - cbn [negb andb] in Hneg. rewrite Bool.andb_true_r in Hneg. subst neg.
-      destruct (eval b (d :: ds) >? imax t) eqn:Eov; [discriminate|].
-      inversion Hsome; subst r. split; reflexivity. }
-  destruct H as [H1 H2]. rewrite <- H2. apply strto_correct; assumption.
-Qed.
-
 (** * atoi atol atoll *)
 Lemma ato_strto t s : 8 <= bits t ->
-  ato_m t s = rbind (strto_m t s 10) (fun r => Ok (fst r)).
+  ato_m t s = rbind (ti_pair_m t s 10) (fun r => Ok (fst r)).
 Proof.
-  intros Hbits. unfold ato_m, strto_m.
+  intros Hbits. unfold ato_m, ti_pair_m.
   rewrite (cast_id t 10 Hbits) by (apply in_ty_small; [assumption|lia]).
   destruct (to_integer_m t true true s 10) as [[[e err] v]| | |]; reflexivity.
 Qed.
@@ -159,5 +130,5 @@ Proof.
       inversion Hsome; subst v. split; [reflexivity|]. apply in_ty_iff in Ein. cbn [fst].
       set (w := if neg then - eval 10 (d :: ds) else eval 10 (d :: ds)) in *.
       replace (w <? imin t) with false by lia. replace (w >? imax t) with false by lia. reflexivity. }
-  destruct H as [H1 H2]. rewrite (strto_correct t s 10 Hbits ltac:(lia) H1). cbn [rbind]. rewrite H2. reflexivity.
+  destruct H as [H1 H2]. rewrite (ti_pair_correct t s 10 Hbits ltac:(lia) H1). cbn [rbind]. rewrite H2. reflexivity.
 Qed.
